@@ -290,3 +290,12 @@ pub fn enumerate_small(kind: u8, n: u8, wmode: u8) -> Vec<GraphCase> {
     }
     out
 }
+
+/// A `NormGraph` view of an existing graph, built from get_all_node_names() and get_all_edges() alone.
+pub fn ng_from_graph<A: Clone + Send + Sync>(g: &graphrs::Graph<String, A>) -> NormGraph {
+    let names: Vec<String> = g.get_all_node_names().into_iter().cloned().collect();
+    let idx = |x: &String| names.iter().position(|y| y == x).expect("edge endpoint is a node");
+    let edges: Vec<(usize, usize, f64)> = g.get_all_edges().iter().map(|e| (idx(&e.u), idx(&e.v), e.weight)).collect();
+    let weighted = !edges.is_empty() && edges.iter().all(|e| !e.2.is_nan());
+    NormGraph { directed: g.specs.directed, multi: g.specs.multi_edges, loops: g.specs.self_loops, n: names.len(), order: (0..names.len()).collect(), names, edges, weighted }
+}
